@@ -3,65 +3,60 @@
    Reading guide.  P = document payloads, R = result payloads, T = states of
    the parsed expression tree.  [ev t ds] = GetMatchingNodes on the context
    [ds] with the tree in state [t]; every theorem holds for every [ev], i.e.
-   for every expression.  [fresh ev t0 sd] = the results of the expression,
-   freshly parsed, on the single stamped document [sd].  The hypotheses
-   TInv... say that what handlers write into the shared tree never changes a
-   later result (instance: C10_sort_tree_write_idempotent).
-   [run_seq cfg fixp fs]: the sequence-mode driver + printer; fixp = false is
-   the printer as coded, fixp = true the repaired one (previousFileIndex
-   assigned after every node). *)
+   for every expression.  [parentless r]: the result node has no Parent.
+   [fresh parentless ev t0 sd] = the results of the expression, freshly
+   parsed, on the single stamped document [sd], as the stream evaluator hands
+   them to the printer (results without Parent stamped with sd's position).
+   The hypotheses TInv... say that what handlers write into the shared tree
+   never changes a later result (instance: C10_sort_tree_write_idempotent).
+   The model is the code after the two repairs in /repo (previousFileIndex
+   assigned after every node; parentless results stamped by the evaluator). *)
 From YQ Require Import Base.Str Model.Printer Model.Stream Spec.StreamSpec Proofs.StreamProofs.
 
 (* (1a) Sequence mode = separator-joined concatenation of the single-document
-   results, for the REPAIRED printer and every expression whose results
-   report the position of their document (results reached through the
-   document root). *)
-Theorem C10_seq_is_concat_fixed :
-  forall (P R T : Type) (blank : P) (absorb : list litem -> P -> P) (pfail : res R -> bool)
+   results (spec_run: no printer state, no counters), for every expression
+   whose results that keep a Parent have the document as their root. *)
+Theorem C10_seq_is_concat_spec :
+  forall (P R T : Type) (blank : P) (absorb : list litem -> P -> P) (pfail parentless : res R -> bool)
          (ev : T -> list (sdoc P) -> option (list (res R)) * T) (t0 : T) (TInv : T -> Prop),
   TInv t0 -> (forall t ds, TInv t -> TInv (snd (ev t ds))) -> (forall t ds, TInv t -> fst (ev t ds) = fst (ev t0 ds)) ->
-  forall cfg fs, attached ev t0 ->
-  run_seq blank absorb pfail ev t0 cfg true fs = spec_run blank pfail (fresh ev t0) cfg fs.
-Proof. intros P R T blank absorb pfail ev t0 TInv H0 H1 H2 cfg fs Ha.
-  exact (run_seq_exact P R T blank absorb pfail ev t0 TInv H0 H1 H2 cfg true fs Ha (or_introl eq_refl)). Qed.
-Print Assumptions C10_seq_is_concat_fixed.
+  forall cfg fs, attached parentless ev t0 ->
+  run_seq blank absorb pfail parentless ev t0 cfg fs = spec_run blank pfail (fresh parentless ev t0) cfg fs.
+Proof. exact run_seq_exact. Qed.
+Print Assumptions C10_seq_is_concat_spec.
 
-(* (1b) The printer as coded: the same, but only for expressions with at most
-   one result per document (see C10_separator_refuted for two results). *)
-Theorem C10_seq_is_concat_partial :
-  forall (P R T : Type) (blank : P) (absorb : list litem -> P -> P) (pfail : res R -> bool)
-         (ev : T -> list (sdoc P) -> option (list (res R)) * T) (t0 : T) (TInv : T -> Prop),
-  TInv t0 -> (forall t ds, TInv t -> TInv (snd (ev t ds))) -> (forall t ds, TInv t -> fst (ev t ds) = fst (ev t0 ds)) ->
-  forall cfg fs, attached ev t0 -> le1 ev t0 ->
-  run_seq blank absorb pfail ev t0 cfg false fs = spec_run blank pfail (fresh ev t0) cfg fs.
-Proof. intros P R T blank absorb pfail ev t0 TInv H0 H1 H2 cfg fs Ha Hl.
-  exact (run_seq_exact P R T blank absorb pfail ev t0 TInv H0 H1 H2 cfg false fs Ha (or_intror Hl)). Qed.
-Print Assumptions C10_seq_is_concat_partial.
+(* the hypothesis in terms of the results as the expression returns them *)
+Theorem C10_attached_of_raw :
+  forall (P R T : Type) (parentless : res R -> bool) (ev : T -> list (sdoc P) -> option (list (res R)) * T) (t0 : T),
+  (forall sd rs, fst (ev t0 [sd]) = Some rs ->
+     Forall (fun r => parentless r = true \/ att (s_file sd) (s_doc sd) r) rs) -> attached parentless ev t0.
+Proof. exact attached_of_raw. Qed.
+Print Assumptions C10_attached_of_raw.
 
-(* (1c) Readable form over readable files: the output is join_sep over the
+(* (1b) Readable form over readable files: the output is join_sep over the
    documents at their true positions. *)
 Theorem C10_seq_is_concat :
-  forall (P R T : Type) (blank : P) (absorb : list litem -> P -> P) (pfail : res R -> bool)
+  forall (P R T : Type) (blank : P) (absorb : list litem -> P -> P) (pfail parentless : res R -> bool)
          (ev : T -> list (sdoc P) -> option (list (res R)) * T) (t0 : T) (TInv : T -> Prop),
   TInv t0 -> (forall t ds, TInv t -> TInv (snd (ev t ds))) -> (forall t ds, TInv t -> fst (ev t ds) = fst (ev t0 ds)) ->
-  forall cfg b fs, attached ev t0 -> (b = true \/ le1 ev t0) ->
+  forall cfg fs, attached parentless ev t0 ->
   Forall (fun fl => f_bad fl = false) fs -> spec_docs blank fs <> [] ->
-  run_seq blank absorb pfail ev t0 cfg b fs =
-    (jev (join_sep pfail cfg false (List.map (fresh ev t0) (spec_docs blank fs))),
-     jst (join_sep pfail cfg false (List.map (fresh ev t0) (spec_docs blank fs)))).
+  run_seq blank absorb pfail parentless ev t0 cfg fs =
+    (jev (join_sep pfail cfg false (List.map (fresh parentless ev t0) (spec_docs blank fs))),
+     jst (join_sep pfail cfg false (List.map (fresh parentless ev t0) (spec_docs blank fs)))).
 Proof. exact seq_is_concat. Qed.
 Print Assumptions C10_seq_is_concat.
 
-(* (1d) With no hypothesis on the results and for both printers: everything
-   except the printer's own separators, and the exit status, is as specified
-   (contents, order, leading content, stop at the first error). *)
+(* (1c) With no hypothesis on the results: everything except the printer's
+   own separators, and the exit status, is as specified (contents, order,
+   leading content, stop at the first error). *)
 Theorem C10_content_in_order :
-  forall (P R T : Type) (blank : P) (absorb : list litem -> P -> P) (pfail : res R -> bool)
+  forall (P R T : Type) (blank : P) (absorb : list litem -> P -> P) (pfail parentless : res R -> bool)
          (ev : T -> list (sdoc P) -> option (list (res R)) * T) (t0 : T) (TInv : T -> Prop),
   TInv t0 -> (forall t ds, TInv t -> TInv (snd (ev t ds))) -> (forall t ds, TInv t -> fst (ev t ds) = fst (ev t0 ds)) ->
-  forall cfg b fs,
-  strip_sep (fst (run_seq blank absorb pfail ev t0 cfg b fs)) = strip_sep (fst (spec_run blank pfail (fresh ev t0) cfg fs))
-  /\ snd (run_seq blank absorb pfail ev t0 cfg b fs) = snd (spec_run blank pfail (fresh ev t0) cfg fs).
+  forall cfg fs,
+  strip_sep (fst (run_seq blank absorb pfail parentless ev t0 cfg fs)) = strip_sep (fst (spec_run blank pfail (fresh parentless ev t0) cfg fs))
+  /\ snd (run_seq blank absorb pfail parentless ev t0 cfg fs) = snd (spec_run blank pfail (fresh parentless ev t0) cfg fs).
 Proof. exact run_seq_content. Qed.
 Print Assumptions C10_content_in_order.
 
@@ -69,11 +64,11 @@ Print Assumptions C10_content_in_order.
    documents of the files stamped with their true file index, document index
    and file name. *)
 Theorem C10_indices_true :
-  forall (P R T : Type) (blank : P) (absorb : list litem -> P -> P) (pfail : res R -> bool)
+  forall (P R T : Type) (blank : P) (absorb : list litem -> P -> P) (pfail parentless : res R -> bool)
          (ev : T -> list (sdoc P) -> option (list (res R)) * T) (t0 : T) (TInv : T -> Prop),
   TInv t0 -> (forall t ds, TInv t -> TInv (snd (ev t ds))) -> (forall t ds, TInv t -> fst (ev t ds) = fst (ev t0 ds)) ->
-  forall cfg b fs bs,
-  run_seq_blocks blank absorb pfail ev t0 cfg b fs = (bs, Done) -> spec_docs blank fs <> [] ->
+  forall cfg fs bs,
+  run_seq_blocks blank absorb pfail parentless ev t0 cfg fs = (bs, Done) -> spec_docs blank fs <> [] ->
   List.map b_doc bs = spec_docs blank fs
   /\ forall sd, In sd (spec_docs blank fs) <->
        exists i fl k d, nth_error fs i = Some fl /\ nth_error (decode blank absorb true fl) k = Some d
@@ -83,14 +78,14 @@ Print Assumptions C10_indices_true.
 
 (* (3) Non-interference: what is printed for a document (up to the printer's
    separators) is a function of that stamped document alone -- the same in
-   any two runs, over any files, with either printer. *)
+   any two runs, over any files. *)
 Theorem C10_doc_independent :
-  forall (P R T : Type) (blank : P) (absorb : list litem -> P -> P) (pfail : res R -> bool)
+  forall (P R T : Type) (blank : P) (absorb : list litem -> P -> P) (pfail parentless : res R -> bool)
          (ev : T -> list (sdoc P) -> option (list (res R)) * T) (t0 : T) (TInv : T -> Prop),
   TInv t0 -> (forall t ds, TInv t -> TInv (snd (ev t ds))) -> (forall t ds, TInv t -> fst (ev t ds) = fst (ev t0 ds)) ->
-  forall cfg b1 b2 fs1 fs2 bs1 s1 bs2 s2 B1 B2,
-  run_seq_blocks blank absorb pfail ev t0 cfg b1 fs1 = (bs1, s1) ->
-  run_seq_blocks blank absorb pfail ev t0 cfg b2 fs2 = (bs2, s2) ->
+  forall cfg fs1 fs2 bs1 s1 bs2 s2 B1 B2,
+  run_seq_blocks blank absorb pfail parentless ev t0 cfg fs1 = (bs1, s1) ->
+  run_seq_blocks blank absorb pfail parentless ev t0 cfg fs2 = (bs2, s2) ->
   In B1 bs1 -> In B2 bs2 -> b_doc B1 = b_doc B2 ->
   strip_sep (b_events B1) = strip_sep (b_events B2).
 Proof. exact doc_independent. Qed.
@@ -107,77 +102,59 @@ Print Assumptions C10_sort_tree_write_idempotent.
 (* (4) One result per document (the identity): N documents in, N results out
    (one when nothing was read: the null document), no error. *)
 Theorem C10_identity_count :
-  forall (P R T : Type) (blank : P) (absorb : list litem -> P -> P) (pfail : res R -> bool)
+  forall (P R T : Type) (blank : P) (absorb : list litem -> P -> P) (pfail parentless : res R -> bool)
          (ev : T -> list (sdoc P) -> option (list (res R)) * T) (t0 : T) (TInv : T -> Prop),
   TInv t0 -> (forall t ds, TInv t -> TInv (snd (ev t ds))) -> (forall t ds, TInv t -> fst (ev t ds) = fst (ev t0 ds)) ->
-  forall cfg b fs,
-  (forall sd, exists r, fresh ev t0 sd = Some [r] /\ pfail r = false) ->
+  forall cfg fs,
+  (forall sd, exists r, fresh parentless ev t0 sd = Some [r] /\ pfail r = false) ->
   Forall (fun fl => f_bad fl = false) fs ->
-  count_res (fst (run_seq blank absorb pfail ev t0 cfg b fs)) = Nat.max 1 (length (spec_docs blank fs))
-  /\ snd (run_seq blank absorb pfail ev t0 cfg b fs) = Done.
+  count_res (fst (run_seq blank absorb pfail parentless ev t0 cfg fs)) = Nat.max 1 (length (spec_docs blank fs))
+  /\ snd (run_seq blank absorb pfail parentless ev t0 cfg fs) = Done.
 Proof. exact identity_count. Qed.
 Print Assumptions C10_identity_count.
 
 (* (5) eval-all = eval on an input of at most one document, for expressions
    that do not look at the EvaluateTogether flag (the flag only switches
-   collect to read-only traversal: total traversals). *)
+   collect to read-only traversal: total traversals); nodes made during
+   evaluation without Parent have zero document / file index. *)
 Theorem C10_evalall_eq_eval_single :
-  forall (P R T : Type) (blank : P) (absorb : list litem -> P -> P) (pfail : res R -> bool)
-         (ev : T -> list (sdoc P) -> option (list (res R)) * T) (t0 : T) cfg b fl,
+  forall (P R T : Type) (blank : P) (absorb : list litem -> P -> P) (pfail parentless : res R -> bool)
+         (ev : T -> list (sdoc P) -> option (list (res R)) * T) (t0 : T) cfg fl,
+  parentless_zero parentless ev t0 ->
   f_bad fl = false ->
   (length (decode blank absorb true fl) <= 1)%nat ->
   (forall sd, fst (ev t0 [set_together sd]) = fst (ev t0 [sd])) ->
-  run_all blank absorb pfail ev t0 cfg b [fl] = run_seq blank absorb pfail ev t0 cfg b [fl].
+  run_all blank absorb pfail ev t0 cfg [fl] = run_seq blank absorb pfail parentless ev t0 cfg [fl].
 Proof. exact evalall_single. Qed.
 Print Assumptions C10_evalall_eq_eval_single.
 
 (* ------------------------------------------------------------------ *)
-(* refutations of the full statement on the faithful model              *)
+(* the two former counterexamples, now instances of (1a)                *)
 (* ------------------------------------------------------------------ *)
 Definition cfg_yaml : pcfg := mkCfg true true false.
-Definition nofail : res N -> bool := fun _ => false.
+Definition nofail : res (bool * N) -> bool := fun _ => false.
+Definition is_parentless (r : res (bool * N)) : bool := fst (r_val r).
 Definition two_files : list (file N) := [mkFile [102; 49] [] [7] false; mkFile [102; 50] [] [8] false].
 Definition one_file_two_docs : list (file N) := [mkFile [102; 49] [] [7; 8] false].
 
 (* `.a, .b`: two results per document, both below the document root *)
-Definition ev_two (_ : unit) (ds : list (sdoc N)) : option (list (res N)) * unit :=
-  (Some (flat_map (fun sd => [mkRes (s_doc sd) (s_file sd) [] 1; mkRes (s_doc sd) (s_file sd) [] 2]) ds), tt).
+Definition ev_two (_ : unit) (ds : list (sdoc N)) : option (list (res (bool * N))) * unit :=
+  (Some (flat_map (fun sd => [mkRes (s_doc sd) (s_file sd) [] (false, 1); mkRes (s_doc sd) (s_file sd) [] (false, 2)]) ds), tt).
 
-(* `[.a]`, `keys`, `length`, `document_index` ...: one result that replaces
-   the root (CreateReplacement: no Parent, so document 0 / file 0 is reported) *)
-Definition ev_detached (_ : unit) (ds : list (sdoc N)) : option (list (res N)) * unit :=
-  (Some (List.map (fun sd => mkRes 0 0 [] (s_body sd)) ds), tt).
+(* `[.a]`, `keys`, `length` ...: one result that replaces the root (no Parent, document 0 / file 0 in the node) *)
+Definition ev_detached (_ : unit) (ds : list (sdoc N)) : option (list (res (bool * N))) * unit :=
+  (Some (List.map (fun sd => mkRes 0 0 [] (true, s_body sd)) ds), tt).
 
-(* A spurious separator between the two results of the document of the
-   second file (previousFileIndex is never updated), although the expression
-   satisfies every hypothesis of C10_seq_is_concat_fixed. *)
-Theorem C10_separator_refuted :
-  attached ev_two tt
-  /\ run_seq 0 (fun _ b => b) nofail ev_two tt cfg_yaml false two_files
-     = ([Res 0 0 0 1; Res 0 0 1 2; Sep; Res 1 0 0 1; Sep; Res 1 0 1 2], Done)
-  /\ spec_run 0 nofail (fresh ev_two tt) cfg_yaml two_files
-     = ([Res 0 0 0 1; Res 0 0 1 2; Sep; Res 1 0 0 1; Res 1 0 1 2], Done).
-Proof.
-  split; [|split; vm_compute; reflexivity].
-  intros sd rs H. unfold fresh, ev_two in H. cbn in H. injection H as <-.
-  repeat constructor.
-Qed.
-Print Assumptions C10_separator_refuted.
-
-(* No separator at all between the results of two documents when the
-   results are cut loose from the document root. *)
-Theorem C10_detached_separator_refuted :
-  run_seq 0 (fun _ b => b) nofail ev_detached tt cfg_yaml false one_file_two_docs = ([Res 0 0 0 7; Res 0 0 0 8], Done)
-  /\ run_seq 0 (fun _ b => b) nofail ev_detached tt cfg_yaml true one_file_two_docs = ([Res 0 0 0 7; Res 0 0 0 8], Done).
-Proof. split; vm_compute; reflexivity. Qed.
-Print Assumptions C10_detached_separator_refuted.
-
-(* non-vacuity: ev_two meets the hypotheses of (1a) with TInv := True, and the repaired printer prints what the spec says *)
+(* non-vacuity: both meet the hypotheses of (1a) with TInv := True; one separator per document boundary *)
 Example C10_example :
-  attached ev_two tt
-  /\ (forall t ds, fst (ev_two t ds) = fst (ev_two tt ds))
-  /\ run_seq 0 (fun _ b => b) nofail ev_two tt cfg_yaml true two_files
-     = ([Res 0 0 0 1; Res 0 0 1 2; Sep; Res 1 0 0 1; Res 1 0 1 2], Done).
+  attached is_parentless ev_two tt
+  /\ attached is_parentless ev_detached tt
+  /\ run_seq 0 (fun _ b => b) nofail is_parentless ev_two tt cfg_yaml two_files
+     = ([Res 0 0 0 (false, 1); Res 0 0 1 (false, 2); Sep; Res 1 0 0 (false, 1); Res 1 0 1 (false, 2)], Done)
+  /\ run_seq 0 (fun _ b => b) nofail is_parentless ev_detached tt cfg_yaml one_file_two_docs
+     = ([Res 0 0 0 (true, 7); Sep; Res 0 1 0 (true, 8)], Done).
 Proof.
-  split; [exact (proj1 C10_separator_refuted)|]. split; [intros [] ds; reflexivity|vm_compute; reflexivity].
+  split; [|split; [|split; vm_compute; reflexivity]].
+  - apply attached_of_raw. intros sd rs H. cbn in H. injection H as <-. repeat constructor; right; split; reflexivity.
+  - apply attached_of_raw. intros sd rs H. cbn in H. injection H as <-. repeat constructor; left; reflexivity.
 Qed.
